@@ -206,6 +206,34 @@ namespace {
          const ipr::Template& it = *tmpl;
          chk(&it.parameters() == &it.mapping().parameters(), "template:parameters", "Template::parameters() is not mapping().parameters()");
          chk(&it.result() == &it.mapping().result(), "template:result", "Template::result() is not mapping().result()");
+         // the same template declared again with a mapping of its own, and a secondary template of the same name:
+         // parameters()/result() of EACH declaration are those of ITS mapping (both sides refusing counts as agreement)
+         {
+            auto same_or_both_refuse = [&](auto derived, auto primitive, const char* key, const char* what) {
+               const void* a = nullptr; const void* b = nullptr; bool ra = false, rb = false;
+               try { a = derived(); } catch (const std::logic_error&) { ra = true; }
+               try { b = primitive(); } catch (const std::logic_error&) { rb = true; }
+               chk(ra == rb and a == b, key, what);
+            };
+            auto* map2 = lex.make_mapping(region, ipr::Mapping_level{ 1 });
+            for (int k = 0; k < n; ++k) map2->param(name(k + 3), *ty[k]);
+            map2->body = lex.make_literal(*ty[0], u8"2");
+            auto* again = region.declare_primary_template(tmpl->name(), fa);
+            again->init = map2;
+            auto* sec_map = lex.make_mapping(region, ipr::Mapping_level{ 1 });
+            sec_map->param(name(6), *ty[0]);
+            sec_map->body = lex.make_literal(*ty[0], u8"3");
+            auto* sec = region.declare_secondary_template(tmpl->name(), lex.get_forall(sec_map->parameters().type(), ilex.union_type()));
+            sec->init = sec_map;
+            auto* bare = region.declare_secondary_template(name(8), lex.get_forall(sec_map->parameters().type(), ilex.enum_type()));      // no mapping yet
+            int which = 0;
+            for (const ipr::Template* t : { static_cast<const ipr::Template*>(tmpl), static_cast<const ipr::Template*>(again), static_cast<const ipr::Template*>(sec), static_cast<const ipr::Template*>(bare) }) {
+               state(std::string("template declaration #") + std::to_string(which++) + " (first / redeclared / secondary / secondary without mapping) over a mapping with " + N);
+               same_or_both_refuse([&] { return static_cast<const void*>(&t->parameters()); }, [&] { return static_cast<const void*>(&t->mapping().parameters()); }, "template:parameters", "Template::parameters() is not mapping().parameters()");
+               same_or_both_refuse([&] { return static_cast<const void*>(&t->result()); }, [&] { return static_cast<const void*>(&t->mapping().result()); }, "template:result", "Template::result() is not mapping().result()");
+            }
+            state("mapping with " + N);
+         }
          // parameters with / without initializer
          int i = 0;
          for (auto& p : pl.elements()) {
